@@ -4916,6 +4916,16 @@ mod_webdav_put_range (request_st * const r, const buffer * const h,
     mod_webdav_write_cq(r, &r->reqbody_queue, fd);
   }
 
+    if (0 != r->conf.etag_flags && !http_status_is_set(r)) {
+        /*(skip sending etag if fstat() error; not expected)*/
+        if (0 != fstat(fd, &st)) r->conf.etag_flags = 0;
+    }
+
+    /*(close() might report deferred write error; check before rename())*/
+    const int wc = close(fd);
+    if (0 != wc && !http_status_is_set(r))
+        http_status_set_error(r, (errno == ENOSPC) ? 507 : 403);
+
     if (fd != ifd) {
         if (http_status_is_set(r)) /*(error writing; discard temporary copy)*/
             unlink(pconf->tmpb->ptr);
@@ -4940,15 +4950,6 @@ mod_webdav_put_range (request_st * const r, const buffer * const h,
             unlink(pconf->tmpb->ptr);
         }
     }
-
-    if (0 != r->conf.etag_flags && !http_status_is_set(r)) {
-        /*(skip sending etag if fstat() error; not expected)*/
-        if (0 != fstat(fd, &st)) r->conf.etag_flags = 0;
-    }
-
-    const int wc = close(fd);
-    if (0 != wc && !http_status_is_set(r))
-        http_status_set_error(r, (errno == ENOSPC) ? 507 : 403);
 
     if (!http_status_is_set(r)) {
         http_status_set_fin(r, 204); /* No Content */
